@@ -4,6 +4,7 @@ The property quantifies over schedules.  Static analysis establishes every premi
 DESIGN.md section 5 on the FIPS_MODE build; the lemma's conclusion (exactly once, nobody early, same verdict,
 no livelock) then holds for the code as it is.  A premise that breaks is reported by name.
 
+P0 initial state: self_test_status is statically initialised to 2 (NOT_DONE).
 P1 ownership: self_test_status is a local symbol referenced only by asm_check_self_tests_status and
    asm_set_self_tests_status.
 P2 atomic claim: the only write in asm_check is a lock-prefixed cmpxchg with eax = 2 (NOT_DONE), edx = 3 (RUNNING);
@@ -97,6 +98,26 @@ def ret_set(G, mods_fn, depth=0):
     return out
 
 
+def initial_state(so, ssym):
+    ib = so.initial_bytes(ssym.sec, ssym.addr, 4)
+    sec = so.sections[ssym.sec]["name"]
+    if ib is None:
+        return False, "initial value of self_test_status cannot be read from section %s" % sec
+    v = int.from_bytes(ib, "little")
+    relocated = any(r[0] == ssym.sec and ssym.addr <= r[1] < ssym.addr + 4 for r in so.relocs)
+    if relocated:
+        return False, "self_test_status is initialised through a relocation"
+    return v == 2, "self_test_status starts as %d in %s; the protocol (and every gate that relies on it) requires 2 = NOT_DONE" % (v, sec)
+
+
+def find_status(lib):
+    for o in lib.objs:
+        for sm in o.symbols:
+            if sm.name == STATUS and sm.kind == "DEF":
+                return o, sm
+    return None
+
+
 def run(chk):
     units, stats = build.build("fips")
     lib = x86.Library(units)
@@ -126,6 +147,9 @@ def run(chk):
         return
     so, ssym = stat_obj
     P("P1", ssym.bind == "L", "self_test_status must be a local symbol (binding %s)" % ssym.bind, construct="binding")
+    # ---------------- P0: the protocol starts in state 2 (NOT_DONE)
+    ok0, msg0 = initial_state(so, ssym)
+    P("P0", ok0, msg0, construct="initial-state", sample={"premise": "P0", "section": so.sections[ssym.sec]["name"], "what": msg0})
     for o in lib.objs:
         for (sec, iaddr, isz, kind, off, sym0, add_, rtype, ssec, opc) in o.erefs:
             t = o.reloc_target(sym0, add_, rtype, ssec, isz, off)
